@@ -583,6 +583,11 @@ def gen_XorbLayout():
               "if ret.hash() != hash {"]:
         if p not in sv:
             raise TranslateError("streaming validator changed: %r" % p)
+    # the recomputed root hash is compared unconditionally, after the footer checks and before the object is handed back
+    tail = ('db.add_file(&mut staging, &chunk_hash_and_size); let ret = db.finalize(staging); if ret.hash() != hash { '
+            'return Err(CasObjectError::FormatError(anyhow!("xorb computed hash does not match provided hash"))); } let cas_object = maybe_cas_object')
+    if tail not in sv:
+        raise TranslateError("streaming validator: the final root-hash comparison is no longer unconditional")
     # boundaries-only parser: checked arithmetic and clamped allocation?
     bo = impl_fn_body(of, "CasObjectInfoV1", "deserialize_only_boundaries_section")
     if "boundary_section_offset_from_end += size_of::<u32>() as u32;" in bo and "s.chunk_boundary_offsets.resize(num_chunks_boundaries_section as usize, 0);" in bo:
